@@ -876,11 +876,24 @@ package erpc
 //@   requires[handlers-drained-before-release] @C08 waited(addr(s.graceCtxWaitGroup))
 //@   requires[not-while-closing-gracefully] @C08 status != statusActiveClosing
 //@   ensures[locks-restored] sameLocks()
+//@ ghost global statusAfterWait int
+//@ trusted (*session).graceCtxWait in erpc.(*session).readDisconnected
+//@   flags libframe
+//@   modifies s.status, waitgroups, ghost.statusAfterWait
+//@   ghostset ghost.statusAfterWait = s.status
+//@   ensures[waited] waited(addr(s.graceCtxWaitGroup)) && sameLocks()
+//@   ensures[rely-only-a-close-in-progress-moves-the-status] (old(s.status) == statusActiveClosing ==> s.status == statusActiveClosing || s.status == statusActiveClosed) && (old(s.status) != statusActiveClosing ==> s.status == old(s.status))
 //@ func (*session).readDisconnected
 //@   property C02 C08 C13 C07
 //@   ensures[session-ends-when-redial-gives-up] @C13 @C07 old(s.status) != statusPassiveClosed && old(s.status) != statusActiveClosed && old(s.status) != statusPassiveClosing && old(s.status) != statusActiveClosing && !ghost.lastRedialOK ==> s.status == statusPassiveClosed && s.didCloseNotify == 1 && ghost.postDisconnectRuns == old(ghost.postDisconnectRuns) + 1
 //@   ensures[session-kept-when-redial-succeeds] @C13 @C07 old(s.status) != statusPassiveClosed && old(s.status) != statusActiveClosed && old(s.status) != statusPassiveClosing && old(s.status) != statusActiveClosing && ghost.lastRedialOK ==> ghost.postDisconnectRuns == old(ghost.postDisconnectRuns)
-//@   ensures[graceful-close-not-disturbed] @C08 old(s.status) == statusActiveClosing ==> s.status == statusActiveClosing
+// rely at the reader's blocking wait: while the reader waits for the handlers, a local
+// Close that is in progress may finish (closing actively -> closed actively); nobody
+// else moves the status then (a Close that starts later finds "closing passively"
+// and is a no-op). The reader therefore decides on the status it sampled on entry:
+// for a session that was being closed locally it leaves the status to Close and
+// does not run the disconnect hook a second time.
+//@   ensures[graceful-close-not-disturbed] @C08 @C07 old(s.status) == statusActiveClosing ==> s.status == ghost.statusAfterWait && (s.status == statusActiveClosing || s.status == statusActiveClosed) && ghost.postDisconnectRuns == old(ghost.postDisconnectRuns)
 //@   flags libframe frame-unchecked
 //@   requires @C02 @C08 @C13 @C07 sessInv(s)
 //@   requires?[session-lock-free] @C02 @C08 @C13 @C07 !held(addr(s.lock))
